@@ -944,6 +944,396 @@ Proof.
       destruct g; try discriminate; (apply builtin_pt; [auto|apply IH; exact H]).
 Qed.
 
+Lemma hoist_nofun P b s : forallb (fun x => negb (is_fun x)) b = true -> hoist P b s = Ok s.
+Proof.
+  revert s. induction b as [|a r IH]; intros s H; [reflexivity|]. cbn [forallb] in H.
+  apply andb_prop in H. destruct H as [Ha Hr]. destruct a; cbn [is_fun negb] in Ha; try discriminate;
+    cbn [hoist]; apply IH; exact Hr.
+Qed.
+
+
+(* ------------------------------------------------------------------------------------ *)
+(* D2. pure, trap-free callees (round 4): a call of a function of the table returns, in
+       the state it was made in, without output - or the run fails in a way that is not
+       compared (fuel: the callee need not terminate; a variable or function that is not
+       there, an argument count / parameter range / stray loop-control that the resolver
+       rules out: WfStatic / WfScoped)                                                     *)
+
+Definition xs {A} (r : res A) : Prop :=
+  match r with
+  | Panic PFuncMissing | Panic PArgCount | Panic PParamRange | Panic PBreakEscapes => True
+  | _ => False
+  end.
+Definition tolx {A} (r : res A) : Prop := tolr r \/ xs r.
+
+Lemma bind_tolx {A B} (m : M A) (f : A -> M B) r :
+  m = ([], r) -> tolx r -> exists r', bindM m f = ([], r') /\ tolx r'.
+Proof.
+  intros -> [T|T].
+  - destruct (bind_tol ([], r) f r eq_refl T) as [r' [E T']]. exists r'. split; [exact E|left; exact T'].
+  - destruct r as [a|e|p| |]; cbn in T; try contradiction; cbn [bindM]; eexists; (split; [reflexivity|right; exact T]).
+Qed.
+
+Definition ids (sc : list slot) : list (option Z) := map s_id sc.
+Definition eshape (e : list (list slot)) : list (list (option Z)) := map ids e.
+Definition dshape (Ds : list (list Z)) : list (list (option Z)) := map (map Some) Ds.
+
+Lemma set_slot_ids l n v sc sc' : set_slot l n v sc = Some sc' -> ids sc' = ids sc.
+Proof.
+  revert sc'. induction sc as [|a r IH]; intros sc'; cbn [set_slot]; [discriminate|].
+  destruct (slot_matches l n a).
+  - intros E. inversion E. reflexivity.
+  - destruct (set_slot l n v r) as [r'|]; [|discriminate]. intros E. inversion E. cbn [ids map].
+    fold (ids r') (ids r). rewrite (IH r' eq_refl). reflexivity.
+Qed.
+
+Lemma set_slot_found x n v sc : In (Some x) (ids sc) -> exists sc', set_slot (Some x) n v sc = Some sc'.
+Proof.
+  induction sc as [|a r IH]; cbn [ids map set_slot]; [intros []|]. fold (ids r).
+  unfold slot_matches. destruct (opt_eqb (s_id a) (Some x)) eqn:M; [eauto|].
+  intros [E|Hi].
+  - rewrite E in M. cbn in M. rewrite Z.eqb_refl in M. discriminate.
+  - destruct (IH Hi) as [r' Er]. rewrite Er. eauto.
+Qed.
+
+Lemma set_slot_notfound x n v sc : ~ In (Some x) (ids sc) -> set_slot (Some x) n v sc = None.
+Proof.
+  induction sc as [|a r IH]; cbn [ids map set_slot]; [reflexivity|]. fold (ids r). intros Hn.
+  unfold slot_matches. destruct (opt_eqb (s_id a) (Some x)) eqn:M.
+  - exfalso. apply Hn. left. destruct (opt_eqb_eq _ _ M) as [E _]. exact E.
+  - rewrite IH; [reflexivity|]. intros Hi. apply Hn. right. exact Hi.
+Qed.
+
+Lemma memz_iff i l : memz i l = true <-> In i l.
+Proof.
+  unfold memz. rewrite existsb_exists. split.
+  - intros [x [Hx E]]. apply Z.eqb_eq in E. subst. exact Hx.
+  - intros H. exists i. split; [exact H|apply Z.eqb_refl].
+Qed.
+
+Lemma in_some_map x (D : list Z) : In (Some x) (map Some D) <-> In x D.
+Proof.
+  rewrite in_map_iff. split; [intros [y [E H]]; inversion E; subst; exact H|intros H; eauto].
+Qed.
+
+Lemma assign_own x n v rest : forall Ds a,
+  eshape a = dshape Ds -> In x (concat Ds) ->
+  exists a', assign_env (Some x) n v (a ++ rest) = Some (a' ++ rest) /\ eshape a' = eshape a.
+Proof.
+  induction Ds as [|D r IH]; intros a Hs Hin; [destruct Hin|].
+  destruct a as [|sc a0]; [discriminate Hs|]. cbn [eshape dshape map] in Hs. injection Hs as Hs1 Hs2.
+  cbn [app assign_env]. destruct (set_slot (Some x) n v sc) as [sc'|] eqn:E.
+  - exists (sc' :: a0). split; [reflexivity|]. cbn [eshape map]. rewrite (set_slot_ids _ _ _ _ _ E). reflexivity.
+  - assert (Hx : ~ In x D).
+    { intros Hd. destruct (set_slot_found x n v sc) as [sc' E']; [|congruence].
+      rewrite Hs1. apply in_some_map. exact Hd. }
+    cbn [concat] in Hin. apply in_app_or in Hin. destruct Hin as [Hin|Hin]; [contradiction|].
+    destruct (IH a0 Hs2 Hin) as [a' [Ea Sa]]. rewrite Ea. exists (sc :: a'). split; [reflexivity|].
+    cbn [eshape map]. fold (eshape a') (eshape a0). rewrite Sa. reflexivity.
+Qed.
+
+Lemma define_own x n v rest sc a0 D Dr :
+  eshape (sc :: a0) = dshape (D :: Dr) ->
+  exists sc', define_env (Some x) n v ((sc :: a0) ++ rest) = (sc' :: a0) ++ rest /\
+              eshape (sc' :: a0) = dshape ((if memz x D then D else x :: D) :: Dr).
+Proof.
+  intros Hs. cbn [eshape dshape map] in Hs. injection Hs as Hs1 Hs2. cbn [app define_env].
+  destruct (memz x D) eqn:Em.
+  - apply memz_iff in Em. destruct (set_slot_found x n v sc) as [sc' E]; [rewrite Hs1; apply in_some_map; exact Em|].
+    rewrite E. exists sc'. split; [reflexivity|]. cbn [eshape dshape map].
+    rewrite (set_slot_ids _ _ _ _ _ E), Hs1, Hs2. reflexivity.
+  - rewrite set_slot_notfound.
+    + eexists. split; [reflexivity|]. cbn [eshape dshape map]. rewrite <- Hs1, <- Hs2. reflexivity.
+    + rewrite Hs1. intros Hi. apply in_some_map in Hi. apply memz_iff in Hi. congruence.
+Qed.
+
+Lemma bind_params_shape f ls ps : forall vs k acc accz,
+  length vs = length ps -> ids acc = map Some accz ->
+  ids (bind_params (Some f) ls ps vs k acc) = map Some (param_ids ls ps k accz).
+Proof.
+  induction ps as [|p ps IH]; intros vs k acc accz Hl Ha; cbn [bind_params param_ids]; [exact Ha|].
+  destruct vs as [|v vs]; [discriminate Hl|]. apply IH; [cbn in Hl; lia|].
+  cbn [ids map s_id]. fold (ids acc). rewrite Ha. reflexivity.
+Qed.
+
+Section Pure.
+Variable P : plan.
+Variable eps : f64.
+Variable pt : list Z.
+
+Definition pfd_ok (fd : fdef) : Prop :=
+  forall f, f_id fd = Some f -> memz f pt = true ->
+    pf_stmts P pt [[]; param_ids (f_lstart fd) (f_params fd) 0 []] (f_body fd) = true.
+Definition pfns_ok (fs : list (list fdef)) : Prop :=
+  forall sc fd, In sc fs -> In fd sc -> pfd_ok fd.
+
+Definition pe_res (m : M (value * st)) (s : st) : Prop :=
+  exists r, m = ([], r) /\ (tolx r \/ exists v, r = Ok (v, s)).
+(* a statement of a pure body: the scopes a of the running activation keep their shape, what
+   lies below them (rest) and the function table are untouched *)
+Definition px_res (m : M (flow * st)) (rest : list (list slot)) (F : list (list fdef)) (Ds' : list (list Z)) : Prop :=
+  exists r, m = ([], r) /\
+    (tolx r \/ exists fl a', r = Ok (fl, {| env := a' ++ rest; fns := F |}) /\ eshape a' = dshape Ds').
+
+Lemma pe_tolx {A} (m : M A) (f : A -> M (value * st)) s r : m = ([], r) -> tolx r -> pe_res (bindM m f) s.
+Proof. intros E T. destruct (bind_tolx m f r E T) as [r' [E' T']]. exists r'. split; [exact E'|left; exact T']. Qed.
+Lemma px_tolx {A} (m : M A) (f : A -> M (flow * st)) rest F Ds r : m = ([], r) -> tolx r -> px_res (bindM m f) rest F Ds.
+Proof. intros E T. destruct (bind_tolx m f r E T) as [r' [E' T']]. exists r'. split; [exact E'|left; exact T']. Qed.
+
+Lemma evals_genx (ok : expr -> bool) (ev : expr -> st -> M (value * st)) s :
+  (forall e, ok e = true -> pe_res (ev e s) s) ->
+  forall es, forallb ok es = true ->
+    exists r, evals_with ev es s = ([], r) /\ (tolx r \/ exists vs, r = Ok (vs, s)).
+Proof.
+  intros Hev. induction es as [|a r IH]; intros H; cbn [evals_with forallb] in *.
+  - eexists. split; [reflexivity|]. right. eexists. reflexivity.
+  - apply andb_prop in H. destruct H as [Ha Hr].
+    destruct (Hev a Ha) as [ra [E [T|[v Ev]]]].
+    + destruct (bind_tolx _ (fun '(v, s1) => bindM (evals_with ev r s1) (fun '(vs, s2) => OkM (v :: vs, s2))) _ E T)
+        as [r' [E' T']]. exists r'. split; [exact E'|left; exact T'].
+    + subst ra. rewrite E, bindM_ret_nil. destruct (IH Hr) as [rr [E' [T|[vs Evs]]]].
+      * destruct (bind_tolx _ (fun '(vs, s2) => OkM (v :: vs, s2)) _ E' T) as [r' [E'' T']].
+        exists r'. split; [exact E''|left; exact T'].
+      * subst rr. rewrite E', bindM_ret_nil. eexists. split; [reflexivity|]. right. eexists. reflexivity.
+Qed.
+
+Lemma pf_stmts_nofun pfs : forall ts Ds, pf_stmts_with P pfs Ds ts = true -> forallb (fun x => negb (is_fun x)) ts = true.
+Proof.
+  induction ts as [|t r IH]; intros Ds H; [reflexivity|]. cbn [pf_stmts_with] in H. cbn [forallb].
+  destruct (is_fun t); [discriminate|]. cbn [negb andb].
+  destruct (in_plan_stmt P (stmt_sid t)); [eapply IH; exact H|].
+  apply andb_prop in H. destruct H as [_ H]. eapply IH. exact H.
+Qed.
+
+Lemma cond_eval n c s : cond_ok c = true ->
+  exists r, eval P eps n c s = ([], r) /\ (tolr r \/ exists b, r = Ok (b, s) /\ exists x, truthy_cond b = Ok x).
+Proof.
+  unfold cond_ok. intros H. destruct (lit_ty c) as [t|] eqn:E; [|discriminate].
+  destruct (lit_ty_eval P eps n c s t E) as [r [Er [T|[v [Ev Hv]]]]]; exists r; (split; [exact Er|]); [left; exact T|].
+  right. exists v. split; [exact Ev|]. destruct t; try discriminate; destruct v; try discriminate Hv; cbn; eauto.
+Qed.
+
+Lemma builtin_ptx (ev : expr -> st -> M (value * st)) g a s :
+  g = GTypeOf \/ g = GToString -> pe_res (ev a s) s -> pe_res (builtin_call ev g [a] s) s.
+Proof.
+  intros Hg [ra [Ea [T|[v Ev]]]]; unfold builtin_call; cbn [evals_with]; rewrite Ea.
+  - destruct T as [T|T].
+    + destruct ra as [x|x|p| |]; cbn in T; try contradiction; cbn; eexists; (split; [reflexivity|left; left; exact T]).
+    + destruct ra as [x|x|p| |]; cbn in T; try contradiction; cbn; eexists; (split; [reflexivity|left; right; exact T]).
+  - subst ra. cbn. destruct Hg as [Hg|Hg]; subst g; eexists; (split; [reflexivity|right; eexists; reflexivity]).
+Qed.
+
+Lemma decl1_cons D Dr t : exists D', decl1 (D :: Dr) t = D' :: Dr.
+Proof. destruct t; cbn [decl1]; eauto. destruct l; eauto. Qed.
+
+Section Step.
+Variable n : nat.
+Hypothesis IHe : forall e s, pfe pt e = true -> pfns_ok (fns s) -> pe_res (eval P eps n e s) s.
+Hypothesis IHx : forall t Ds a rest F, pf_stmt P pt Ds t = true -> pfns_ok F -> eshape a = dshape Ds ->
+  px_res (exec P eps n t {| env := a ++ rest; fns := F |}) rest F (decl1 Ds t).
+Hypothesis IHl : forall c body Ds a rest F, cond_ok c = true -> pf_stmts P pt ([] :: Ds) body = true ->
+  pfns_ok F -> eshape a = dshape Ds ->
+  px_res (exec_loop P eps n c body {| env := a ++ rest; fns := F |}) rest F Ds.
+Hypothesis IHb : forall b Ds a rest F, pf_stmts P pt ([] :: Ds) b = true ->
+  pfns_ok F -> eshape a = dshape Ds ->
+  px_res (exec_block P eps n b {| env := a ++ rest; fns := F |}) rest F Ds.
+
+Lemma user_call_pure fname args t s :
+  memz t pt = true -> forallb (pfe pt) args = true -> pfns_ok (fns s) ->
+  pe_res (user_call (eval P eps n) (exec_block P eps n) fname args (Some t) s) s.
+Proof.
+  intros Ht Ha Hf. unfold user_call.
+  destruct (lookup_fn (Some t) fname (fns s)) as [fd|] eqn:E.
+  2:{ eexists. split; [reflexivity|]. left. right. exact I. }
+  destruct (lookup_fn_In _ _ _ _ E) as [sc [Hsc [Hfd Hm]]].
+  unfold fdef_matches in Hm. destruct (opt_eqb_eq _ _ Hm) as [Eid _].
+  pose proof (Hf sc fd Hsc Hfd t Eid Ht) as Hbody.
+  destruct (evals_genx (pfe pt) (eval P eps n) s (fun e0 H0 => IHe e0 s H0 Hf) args Ha) as [r [Ev [T|[vs Evs]]]].
+  { eapply pe_tolx; eauto. }
+  subst r. rewrite Ev, bindM_ret_nil.
+  destruct (negb (Nat.eqb (length vs) (length (f_params fd)))) eqn:El.
+  { eexists. split; [reflexivity|]. left. right. exact I. }
+  apply negb_false_iff in El. apply Nat.eqb_eq in El.
+  destruct (match f_id fd with Some _ => f_llen fd <? Z.of_nat (length (f_params fd)) | None => false end).
+  { eexists. split; [reflexivity|]. left. right. exact I. }
+  cbv zeta.
+  set (Pm := bind_params (f_id fd) (f_lstart fd) (f_params fd) vs 0 []).
+  destruct s as [e0 F0]. unfold push_scope. cbn [env fns] in *.
+  change (Pm :: e0) with ([Pm] ++ e0).
+  destruct (IHb (f_body fd) [param_ids (f_lstart fd) (f_params fd) 0 []] [Pm] e0 ([] :: F0) Hbody)
+    as [rb [Eb [T|[fl [a' [Er Sa]]]]]].
+  { intros sc0 fd0 [E0|H0] Hfd0; [subst sc0; destruct Hfd0|eapply Hf; eauto]. }
+  { cbn [eshape dshape map]. f_equal. unfold Pm. rewrite Eid. apply bind_params_shape; [exact El|reflexivity]. }
+  { eapply pe_tolx; eauto. }
+  subst rb. rewrite Eb, bindM_ret_nil.
+  destruct a' as [|p' [|q r']]; try discriminate Sa. unfold pop_scope. cbn [app env fns tl].
+  destruct fl.
+  - eexists. split; [reflexivity|]. right. eexists. reflexivity.
+  - eexists. split; [reflexivity|]. right. eexists. reflexivity.
+  - eexists. split; [reflexivity|]. left. right. exact I.
+  - eexists. split; [reflexivity|]. left. right. exact I.
+Qed.
+
+Lemma pf_eval_step e s : pfe pt e = true -> pfns_ok (fns s) -> pe_res (eval P eps (S n) e s) s.
+Proof.
+  intros H Hf.
+  assert (Hlit : forall t, lit_ty e = Some t -> pe_res (eval P eps (S n) e s) s).
+  { intros t Et. destruct (lit_ty_eval P eps (S n) e s t Et) as [r [E [T|[v [Ev _]]]]];
+      exists r; (split; [exact E|]); [left; left; exact T|right; eauto]. }
+  destruct e; cbn [pfe] in H;
+    try (match type of H with (match ?x with _ => _ end) = true => destruct x eqn:El end;
+         [eapply Hlit; reflexivity|discriminate]).
+  - eapply Hlit. reflexivity.
+  - (* EVar *)
+    rewrite eval_S. cbn [eval_body]. destruct (lookup_env l n0 (env s)).
+    + eexists. split; [reflexivity|]. right. eexists. reflexivity.
+    + eexists. split; [reflexivity|]. left. left. exact I.
+  - (* EArr *)
+    rewrite eval_S. cbn [eval_body].
+    destruct (evals_genx (pfe pt) (eval P eps n) s (fun e0 H0 => IHe e0 s H0 Hf) es H) as [r [E [T|[vs Evs]]]].
+    + eapply pe_tolx; eauto.
+    + subst r. rewrite E, bindM_ret_nil. eexists. split; [reflexivity|]. right. eexists. reflexivity.
+  - (* ECall *)
+    destruct e; try (cbn [lit_ty] in H; discriminate).
+    rewrite eval_S. cbn [eval_body].
+    destruct (global_builtin n0) as [g|] eqn:Eg.
+    + destruct args as [|a [|a2 r]]; try (destruct g; discriminate).
+      assert (Hg : g = GTypeOf \/ g = GToString) by (destruct g; try discriminate; auto).
+      assert (Ha : pfe pt a = true) by (destruct g; try discriminate; exact H).
+      apply builtin_ptx; [exact Hg|apply IHe; assumption].
+    + destruct target as [t|]; [|discriminate]. apply andb_prop in H. destruct H as [Ht Hargs].
+      apply user_call_pure; assumption.
+Qed.
+
+Lemma pf_exec_step t Ds a rest F :
+  pf_stmt P pt Ds t = true -> pfns_ok F -> eshape a = dshape Ds ->
+  px_res (exec P eps (S n) t {| env := a ++ rest; fns := F |}) rest F (decl1 Ds t).
+Proof.
+  intros H Hf Hs. rewrite exec_S. set (s := {| env := a ++ rest; fns := F |}).
+  assert (Hfs : pfns_ok (fns s)) by exact Hf.
+  destruct t; cbn [pf_stmt] in H; try discriminate; fold (pf_stmts P pt) in H; cbn [exec_body decl1].
+  - (* SMake *)
+    destruct l as [x|]; [|discriminate]. apply andb_prop in H. destruct H as [He Hl].
+    destruct Ds as [|D Dr]; [discriminate Hl|]. destruct a as [|sc a0]; [discriminate Hs|].
+    destruct (IHe e s He Hfs) as [r [E [T|[v Ev]]]]; [eapply px_tolx; eauto|].
+    subst r. rewrite E, bindM_ret_nil. destruct (define_own x n0 v rest sc a0 D Dr Hs) as [sc' [Ed Sd]].
+    unfold with_env, s. cbn [env fns]. rewrite Ed.
+    eexists. split; [reflexivity|]. right. exists FNormal, (sc' :: a0). split; [reflexivity|exact Sd].
+  - (* SSet *)
+    destruct l as [x|]; [|discriminate]. apply andb_prop in H. destruct H as [He Hx]. apply memz_iff in Hx.
+    destruct (IHe e s He Hfs) as [r [E [T|[v Ev]]]]; [eapply px_tolx; eauto|].
+    subst r. rewrite E, bindM_ret_nil. destruct (assign_own x n0 v rest Ds a Hs Hx) as [a' [Ea Sa]].
+    unfold with_env, s. cbn [env fns]. rewrite Ea.
+    eexists. split; [reflexivity|]. right. exists FNormal, a'. split; [reflexivity|]. rewrite Sa. exact Hs.
+  - (* SIf *)
+    apply andb_prop in H. destruct H as [H Hel]. apply andb_prop in H. destruct H as [Hc Hth].
+    destruct (cond_eval n c s Hc) as [r [E [T|[b [Eb [x Ex]]]]]]; [eapply px_tolx; eauto; left; exact T|].
+    subst r. rewrite E, bindM_ret_nil. unfold lift. rewrite Ex, bindM_ret_nil.
+    destruct x.
+    + apply IHb; assumption.
+    + destruct f as [fb|]; [apply IHb; assumption|].
+      eexists. split; [reflexivity|]. right. exists FNormal, a. split; [reflexivity|exact Hs].
+  - (* SLoop *)
+    apply andb_prop in H. destruct H as [Hc Hb]. apply IHl; assumption.
+  - (* SBlock *)
+    apply IHb; assumption.
+  - (* SRet *)
+    destruct e as [e|].
+    + destruct (IHe e s H Hfs) as [r [E [T|[v Ev]]]]; [eapply px_tolx; eauto|].
+      subst r. rewrite E, bindM_ret_nil.
+      eexists. split; [reflexivity|]. right. exists (FReturn v), a. split; [reflexivity|exact Hs].
+    + eexists. split; [reflexivity|]. right. exists (FReturn VNull), a. split; [reflexivity|exact Hs].
+  - eexists. split; [reflexivity|]. right. exists FBreak, a. split; [reflexivity|exact Hs].
+  - eexists. split; [reflexivity|]. right. exists FNext, a. split; [reflexivity|exact Hs].
+  - (* SExpr *)
+    destruct (IHe e s H Hfs) as [r [E [T|[v Ev]]]]; [eapply px_tolx; eauto|].
+    subst r. rewrite E, bindM_ret_nil.
+    eexists. split; [reflexivity|]. right. exists FNormal, a. split; [reflexivity|exact Hs].
+Qed.
+
+Lemma pf_loop_step c body Ds a rest F :
+  cond_ok c = true -> pf_stmts P pt ([] :: Ds) body = true -> pfns_ok F -> eshape a = dshape Ds ->
+  px_res (exec_loop P eps (S n) c body {| env := a ++ rest; fns := F |}) rest F Ds.
+Proof.
+  intros Hc Hb Hf Hs. rewrite exec_loop_S. unfold loop_body. set (s := {| env := a ++ rest; fns := F |}).
+  destruct (cond_eval n c s Hc) as [r [E [T|[b [Eb [x Ex]]]]]]; [eapply px_tolx; eauto; left; exact T|].
+  subst r. rewrite E, bindM_ret_nil. unfold lift. rewrite Ex, bindM_ret_nil.
+  destruct (negb x).
+  - eexists. split; [reflexivity|]. right. exists FNormal, a. split; [reflexivity|exact Hs].
+  - destruct (IHb body Ds a rest F Hb Hf Hs) as [rb [Er [T|[fl [a' [Eo Sa]]]]]]; [eapply px_tolx; eauto|].
+    subst rb. unfold s. rewrite Er, bindM_ret_nil. destruct fl.
+    + apply IHl; assumption.
+    + eexists. split; [reflexivity|]. right. exists (FReturn v), a'. split; [reflexivity|exact Sa].
+    + eexists. split; [reflexivity|]. right. exists FNormal, a'. split; [reflexivity|exact Sa].
+    + apply IHl; assumption.
+Qed.
+
+Lemma pf_stmts_run : forall ts D Dr sc a0 rest Fh F0,
+  pf_stmts P pt (D :: Dr) ts = true -> pfns_ok (Fh :: F0) -> eshape (sc :: a0) = dshape (D :: Dr) ->
+  px_res (stmts_with P (exec P eps n) ts {| env := (sc :: a0) ++ rest; fns := Fh :: F0 |}) rest F0 Dr.
+Proof.
+  induction ts as [|t r IH]; intros D Dr sc a0 rest Fh F0 H Hf Hs; cbn [stmts_with].
+  - unfold pop_scope. cbn [app env fns tl]. cbn [eshape dshape map] in Hs. injection Hs as _ Hs2.
+    eexists. split; [reflexivity|]. right. exists FNormal, a0. split; [reflexivity|exact Hs2].
+  - unfold pf_stmts in H. cbn [pf_stmts_with] in H. fold (pf_stmts P pt) in H.
+    destruct (is_fun t); [discriminate|].
+    destruct (in_plan_stmt P (stmt_sid t)); [eapply IH; eauto|].
+    apply andb_prop in H. destruct H as [Ht Hr].
+    destruct (IHx t (D :: Dr) (sc :: a0) rest (Fh :: F0) Ht Hf Hs) as [rt [Et [T|[fl [a' [Eo Sa]]]]]];
+      [eapply px_tolx; eauto|].
+    subst rt. rewrite Et, bindM_ret_nil.
+    destruct (decl1_cons D Dr t) as [D' Ed]. rewrite Ed in Sa, Hr.
+    destruct a' as [|sc' a0']; [discriminate Sa|].
+    destruct fl.
+    + eapply IH; eauto.
+    + unfold pop_scope. cbn [app env fns tl]. cbn [eshape dshape map] in Sa. injection Sa as _ Sa2.
+      eexists. split; [reflexivity|]. right. exists (FReturn v), a0'. split; [reflexivity|exact Sa2].
+    + unfold pop_scope. cbn [app env fns tl]. cbn [eshape dshape map] in Sa. injection Sa as _ Sa2.
+      eexists. split; [reflexivity|]. right. exists FBreak, a0'. split; [reflexivity|exact Sa2].
+    + unfold pop_scope. cbn [app env fns tl]. cbn [eshape dshape map] in Sa. injection Sa as _ Sa2.
+      eexists. split; [reflexivity|]. right. exists FNext, a0'. split; [reflexivity|exact Sa2].
+Qed.
+
+Lemma pf_block_step b Ds a rest F :
+  pf_stmts P pt ([] :: Ds) b = true -> pfns_ok F -> eshape a = dshape Ds ->
+  px_res (exec_block P eps (S n) b {| env := a ++ rest; fns := F |}) rest F Ds.
+Proof.
+  intros Hb Hf Hs. rewrite exec_block_S. unfold block_body.
+  rewrite (hoist_nofun P b _ (pf_stmts_nofun _ _ _ Hb)). unfold lift. rewrite bindM_ret_nil.
+  unfold push_scope. cbn [env fns]. change ([] :: a ++ rest) with (([] :: a) ++ rest).
+  apply (pf_stmts_run b [] Ds [] a rest [] F); [exact Hb| |cbn [eshape dshape map]; f_equal; exact Hs].
+  intros sc0 fd0 [E0|H0] Hfd0; [subst sc0; destruct Hfd0|eapply Hf; eauto].
+Qed.
+
+End Step.
+
+Theorem pf_main n :
+  (forall e s, pfe pt e = true -> pfns_ok (fns s) -> pe_res (eval P eps n e s) s) /\
+  (forall t Ds a rest F, pf_stmt P pt Ds t = true -> pfns_ok F -> eshape a = dshape Ds ->
+     px_res (exec P eps n t {| env := a ++ rest; fns := F |}) rest F (decl1 Ds t)) /\
+  (forall c body Ds a rest F, cond_ok c = true -> pf_stmts P pt ([] :: Ds) body = true ->
+     pfns_ok F -> eshape a = dshape Ds ->
+     px_res (exec_loop P eps n c body {| env := a ++ rest; fns := F |}) rest F Ds) /\
+  (forall b Ds a rest F, pf_stmts P pt ([] :: Ds) b = true -> pfns_ok F -> eshape a = dshape Ds ->
+     px_res (exec_block P eps n b {| env := a ++ rest; fns := F |}) rest F Ds).
+Proof.
+  induction n as [|n (IHe & IHx & IHl & IHb)].
+  - refine (conj _ (conj _ (conj _ _))); intros; eexists; (split; [reflexivity|left; left; exact I]).
+  - refine (conj _ (conj _ (conj _ _))); intros.
+    + eapply pf_eval_step; eauto.
+    + eapply pf_exec_step; eauto.
+    + eapply pf_loop_step; eauto.
+    + eapply pf_block_step; eauto.
+Qed.
+
+(* the form the simulations use: a total pure expression with calls of table functions *)
+Corollary pfe_eval n e s : pfe pt e = true -> pfns_ok (fns s) ->
+  exists r, eval P eps n e s = ([], r) /\ (tolx r \/ exists v, r = Ok (v, s)).
+Proof. intros H Hf. exact (proj1 (pf_main n) e s H Hf). Qed.
+
+End Pure.
+
+
 (* a statement c_p1 drops from a live position does nothing the projection can see *)
 Lemma pruned_exec c P eps n t s :
   pruned_ok c t = true -> st_ok c s ->
@@ -1238,13 +1628,6 @@ Qed.
 
 (* ------------------------------------------------------------------------------------ *)
 (* H. what follows a never-normal statement in its block is never executed               *)
-
-Lemma hoist_nofun P b s : forallb (fun x => negb (is_fun x)) b = true -> hoist P b s = Ok s.
-Proof.
-  revert s. induction b as [|a r IH]; intros s H; [reflexivity|]. cbn [forallb] in H.
-  apply andb_prop in H. destruct H as [Ha Hr]. destruct a; cbn [is_fun negb] in Ha; try discriminate;
-    cbn [hoist]; apply IH; exact Hr.
-Qed.
 
 Lemma hoist_app P a b s :
   hoist P (a ++ b) s = match hoist P a s with Ok s1 => hoist P b s1 | r => r end.
